@@ -27,9 +27,9 @@ Qh2  == <<DNeg(DHalf), DHalf, DHalf, DNeg(DHalf)>>
 Qk   == <<DZero, DZero, DOne, DZero>>
 XDt  == IF Box = "q" THEN {<<1, 1>>, <<1, 0>>} ELSE {<<1, 3>>, <<2, 0>>}
 XAcc == IF Box = "q" THEN {<<D(1), <<-3, 1>>, D(2)>>, <<DZero, <<1, 2>>, D(-1)>>}
-        ELSE {<<D(1), <<-3, 1>>, D(2)>>, <<DZero, <<1, 2>>, D(-1)>>, <<D(-5), D(3), <<7, 1>>>>}
+        ELSE {<<D(-5), D(3), <<7, 1>>>>, <<<<3, 2>>, DZero, D(-2)>>}
 XRot == IF Box = "q" THEN {Q1, Qh} ELSE {Q1, Qi, Qh2}             \* initial rotations
-XRk  == IF Box = "q" THEN {Qh} ELSE {Q1, Qk, Qh}                  \* supplied ("known") rotations
+XRk  == IF Box = "q" THEN {Qh} ELSE {Qk, Qh}                      \* supplied ("known") rotations
 XG   == IF Box = "q" THEN {DZero, D(8)} ELSE {DZero, <<39, 2>>}
 XV0  == {<<DHalf, DZero, D(-1)>>}
 
